@@ -9,6 +9,7 @@ pub mod obs;
 pub mod refint;
 pub mod seqmodel;
 pub mod util;
+pub mod view;
 
 use fw::*;
 use std::path::PathBuf;
